@@ -126,6 +126,36 @@ func execDecodeCase(c *Case) []ModeResult {
 		return collect([]string{"w"}, out)
 	})
 	res = append(res, ModeResult{"load+Run", Verdict(c, b), b.Short()})
+	// decoding reads the description it is given and leaves it as it was: a second Model built from the SAME ModelProto object
+	// holds the same weight, and the proto still equals a copy taken before the first load
+	b2 := guard(func() Observation {
+		g := &onnx.GraphProto{Name: "g", Initializer: []*onnx.TensorProto{mkProtoX(x, "w")}, Output: []*onnx.ValueInfoProto{{Name: "w"}}}
+		mp := mkModel(g, 13)
+		before := proto.Clone(mp)
+		var last Observation
+		for k := 1; k <= 2; k++ {
+			m, err := gonnx.NewModel(mp)
+			if !proto.Equal(before, mp) {
+				return Observation{Kind: "nil", Note: fmt.Sprintf("NewModel number %d changed the ModelProto it was given", k)}
+			}
+			if err != nil {
+				last = observeErr(err)
+			} else {
+				out, err := m.Run(gonnx.Tensors{})
+				if err != nil {
+					last = observeErr(err)
+				} else {
+					last = collect([]string{"w"}, out)
+				}
+			}
+			if v := Verdict(c, last); v != "pass" && !strings.HasPrefix(v, "known:") {
+				last.Note = fmt.Sprintf("Model number %d built from one ModelProto", k)
+				return last
+			}
+		}
+		return last
+	})
+	res = append(res, ModeResult{"load-same-proto-twice", Verdict(c, b2), b2.Short()})
 	// decoding is a function of the payload: eight goroutines decoding the same tensor at the same time all obtain the value
 	if c.Allowed.Must == "value" && len(x.Raw)+len(x.Vals) >= 4 {
 		const G, rounds = 8, 60
